@@ -401,7 +401,8 @@ Definition oinv (loc : env) (pts : list ptarget) (spec : list (nat * bool)) : Pr
   /\ lookup "c_target_expressions" loc = Some (PList (map (fun t => nref (tid t)) pts))
   /\ lookup "order_spec" loc = Some (PList (map enc_sitem spec))
   /\ lookup "targets_name_map" loc = Some NM
-  /\ lookup "n_targets" loc = Some (PInt (Z.of_nat bound)).
+  /\ lookup "n_targets" loc = Some (PInt (Z.of_nat bound))
+  /\ lookup "c_targets" loc = Some (PList (map enc_target pts0)).
 
 Definition p_order_resolve := p_resolve Compile.EOrderIndex Compile.check_aggregates Compile.has_agg bound nm.
 
@@ -440,7 +441,7 @@ Lemma ob_compile_ok : forall (a : pv) loc flds pts spec,
                    /\ lookup "descending" loc' = lookup "descending" loc
   end.
 Proof.
-  intros a loc flds pts spec Hfld (Hself & Hnew & Hexp & Hspec & Hnm & Hn) Hcol Hidx.
+  intros a loc flds pts spec Hfld (Hself & Hnew & Hexp & Hspec & Hnm & Hn & Hct) Hcol Hidx.
   unfold p_new, ob_compile.
   run. rewrite Hidx. run. rewrite Hself. run. rewrite Hfld. run. rewrite Hcol. run.
   unfold do_call. rewrite Hcomp.
@@ -483,7 +484,7 @@ Lemma ob_finish : forall loc flds pts spec (j : nat) d,
   exists loc', exec_block {| locals := loc; fields := flds |} ob_tail = Ok (Next {| locals := loc'; fields := flds |})
                /\ oinv loc' pts (spec ++ [(j, d)]).
 Proof.
-  intros loc flds pts spec j d (Hself & Hnew & Hexp & Hspec & Hnm & Hn) Hi Hd.
+  intros loc flds pts spec j d (Hself & Hnew & Hexp & Hspec & Hnm & Hn & Hct) Hi Hd.
   eexists. split; [apply (ob_tail_ok _ flds j d spec); assumption|].
   unfold oinv. repeat split; lk; try assumption; reflexivity.
 Qed.
@@ -501,7 +502,7 @@ Lemma order_step : forall (k : akey) (d : bool) loc flds pts spec,
   end.
 Proof.
   intros k d loc flds pts spec Hfld Hinv Hk.
-  pose proof Hinv as (Hself & Hnew & Hexp & Hspec & Hnm & Hn).
+  pose proof Hinv as (Hself & Hnew & Hexp & Hspec & Hnm & Hn & Hct).
   change order_body with
     ([SAssign (TName "column") (XAttr (XName "spec") "column");
       SAssign (TName "descending") (XAttr (XName "spec") "ordering");
@@ -536,7 +537,7 @@ Proof.
   { unfold ob_cond. erewrite eval_prim1 by (apply eval_name; exact Hc3). rewrite (isinstance_int_key k Hk). reflexivity. }
   rewrite (exec_if call_ref prim _ _ _ _ _ _ _ Ec eq_refl).
   unfold p_order_resolve, p_resolve.
-  destruct I3 as (Hs3 & Hn3 & He3 & Hsp3 & Hnm3 & Hnt3).
+  destruct I3 as (Hs3 & Hn3 & He3 & Hsp3 & Hnm3 & Hnt3 & Hct3).
   destruct k as [z|n|a]; cbn [truthy].
   - unfold ob_int. cbn [enc_key] in Hc3. run. rewrite Hc3. run. rewrite Hnt3. run.
     rewrite !val_le_int. unfold Compile.nat_index.
@@ -593,6 +594,482 @@ Proof.
       apply ob_finish; [exact I'|exact Hi'|]. rewrite Hd'. exact Hd3.
     + rewrite HC. reflexivity.
 Qed.
+Fixpoint p_order_loop (l : list (akey * bool)) (pts : list ptarget) (spec : list (nat * bool))
+  : Compile.result (list ptarget * list (nat * bool)) cerr :=
+  match l with
+  | [] => Compile.Ok (pts, spec)
+  | (k, d) :: rest =>
+      match p_order_resolve k pts with
+      | Compile.Err e => Compile.Err e
+      | Compile.Ok (pts', j) => p_order_loop rest pts' (spec ++ [(j, d)])
+      end
+  end.
+
+Definition krefs (l : list (akey * bool)) : list (Compile.kref * bool) := map (fun kd => (kref_of (fst kd), snd kd)) l.
+
+Lemma p_order_loop_T : forall l pts spec,
+  Compile.order_loop bound nm (krefs l) (map T pts) spec =
+  match p_order_loop l pts spec with
+  | Compile.Ok (p, sp) => Compile.Ok (map T p, sp)
+  | Compile.Err e => Compile.Err e
+  end.
+Proof.
+  induction l as [|[k d] rest IH]; intros pts spec; [reflexivity|].
+  cbn [krefs map fst snd Compile.order_loop p_order_loop]. rewrite p_resolve_T. fold p_order_resolve.
+  destruct (p_order_resolve k pts) as [[pts' j]|e]; cbn [lift_T Compile.bind]; [|reflexivity].
+  apply IH.
+Qed.
+
+Lemma order_loop_src : forall (l : list (akey * bool)) loc flds pts spec,
+  lookup "_compile" flds = Some (PRef kc) -> oinv loc pts spec -> Forall key_ok (map fst l) ->
+  match p_order_loop l pts spec with
+  | Compile.Err e => for_loop order_body "spec" {| locals := loc; fields := flds |} (map enc_oitem l) = Exc (CompErr e)
+  | Compile.Ok (pts', spec') =>
+      exists loc', for_loop order_body "spec" {| locals := loc; fields := flds |} (map enc_oitem l) =
+                   Ok (Next {| locals := loc'; fields := flds |}) /\ oinv loc' pts' spec'
+  end.
+Proof.
+  induction l as [|[k d] rest IH]; intros loc flds pts spec Hfld Hinv Hks.
+  - cbn. exists loc. split; [reflexivity|exact Hinv].
+  - cbn [map fst] in Hks. inversion Hks as [|? ? Hk Hrest]; subst.
+    cbn [map PyMiniLemmas.for_loop p_order_loop].
+    pose proof (order_step k d loc flds pts spec Hfld Hinv Hk) as HS.
+    destruct (p_order_resolve k pts) as [[pts' j]|e].
+    + destruct HS as (loc1 & -> & I1). cbn [bind]. apply (IH loc1 flds pts' _ Hfld I1 Hrest).
+    + rewrite HS. reflexivity.
+Qed.
+
 End OrderLoop.
 
+Ltac run := repeat (progress (cbn [PyMini.exec_block PyMini.exec PyMini.eval bind read write locals fields pv_truthy truthy
+                                   PBool PNone PInt compare1 pv_is_none negb andb orb is_null rank Pos.eqb Z.eqb
+                                   method_call String.eqb Ascii.eqb Bool.eqb binop1 binop_builtin fst snd existsb
+                                   ValueError as_bound]; lk)).
+
+Definition enc_ospec (o : option (list (nat * bool))) : pv := popt (fun l => PList (map enc_sitem l)) o.
+
+Definition ob_prefix : list stmt := Eval cbv in firstn 6 (f_body compile_order_by).
+Definition ob_ret : stmt := Eval cbv in nth 7 (f_body compile_order_by) SPass.
+Lemma order_body_split :
+  f_body compile_order_by = ob_prefix ++ [SFor "spec" (XName "order_by") order_body; ob_ret].
+Proof. reflexivity. Qed.
+
+Lemma exec_block_app : forall a b s,
+  exec_block s (a ++ b) = bind (exec_block s a) (fun o => match o with Next s1 => exec_block s1 b | Ret _ _ => Ok o end).
+Proof.
+  induction a as [|c t IH]; intros b s; [reflexivity|].
+  cbn [app]. rewrite !exec_block_cons. destruct (exec s c) as [[s1|s1 v]| |]; cbn [bind]; auto.
+Qed.
+
+Ltac crun := repeat (progress (cbn [PyMini.exec_block PyMini.exec PyMini.eval bind read write locals fields lookup update
+                                    String.eqb Ascii.eqb Bool.eqb as_bound PNone pv_truthy truthy PBool negb fst snd])).
+
+Definition order_env (ord pts0 : pv) (pts : list ptarget) : env :=
+  [("self", PSelf); ("order_by", ord); ("c_targets", pts0);
+   ("new_targets", PList (map enc_target pts));
+   ("c_target_expressions", PList (map (fun t => nref (tid t)) pts));
+   ("targets_name_map", PTuple [PStr dict_tag; PList (name_items 0 pts)]);
+   ("n_targets", PInt (Z.of_nat (length (filter is_named pts))));
+   ("order_spec", PList [])].
+
+Lemma order_prefix_ok : forall (pts0 : list ptarget) (o : pv) (l : list pv) flds, o = PList l -> l <> [] ->
+  exec_block {| locals := [("self", PSelf); ("order_by", o); ("c_targets", PList (map enc_target pts0))]; fields := flds |}
+    ob_prefix =
+  Ok (Next {| locals := order_env o (PList (map enc_target pts0)) pts0; fields := flds |}).
+Proof.
+  intros pts0 o l flds -> Hl. unfold ob_prefix.
+  set (ct := PList (map enc_target pts0)).
+  rewrite exec_block_cons.
+  assert (E0 : eval {| locals := [("self", PSelf); ("order_by", PList l); ("c_targets", ct)]; fields := flds |}
+                 (XNot (XName "order_by")) =
+               Ok ({| locals := [("self", PSelf); ("order_by", PList l); ("c_targets", ct)]; fields := flds |}, PBool (negb true))).
+  { eapply eval_not; [apply eval_name; reflexivity|]. destruct l; [congruence|reflexivity]. }
+  rewrite (exec_if call_ref prim _ _ _ _ _ _ _ E0 eq_refl). cbn [truthy negb]. rewrite exec_block_nil. cbn [bind].
+  rewrite exec_block_cons.
+  erewrite exec_assign by (unfold ct; crun; rewrite slice_all; reflexivity).
+  cbn [bind]. rewrite exec_block_cons.
+  erewrite exec_assign
+    by (erewrite eval_listcomp_gen by (apply eval_name; reflexivity); rewrite comp_exprs; reflexivity).
+  cbn [bind]. rewrite exec_block_cons.
+  erewrite exec_assign
+    by (erewrite eval_prim1;
+        [|erewrite eval_listcomp_gen;
+          [|erewrite eval_prim1 by (apply eval_name; reflexivity);
+            change (prim "builtins.enumerate" [ct]) with (Ok (A:=pv) (PList (enum_from (Z.of_nat 0) (map enc_target pts0))));
+            reflexivity];
+          fold name_elt; fold name_cond; rewrite (comp_names _ pts0 0); reflexivity];
+        reflexivity).
+  cbn [bind]. rewrite exec_block_cons.
+  erewrite exec_assign
+    by (erewrite eval_prim1;
+        [|erewrite eval_listcomp_gen by (apply eval_name; reflexivity); rewrite comp_count; reflexivity];
+        change (prim "builtins.sum" [PList (map (fun _ => PInt 1) (filter is_named pts0))])
+          with (match sum_ints (map (fun _ : ptarget => PInt 1) (filter is_named pts0)) with
+                | Some z => Ok (A:=pv) (PInt z) | None => Stuck end);
+        rewrite sum_ones; reflexivity).
+  cbn [bind]. crun. reflexivity.
+Qed.
+
+Theorem order_by_src : forall (pts0 : list ptarget) (ord : list (akey * bool)) flds,
+  lookup "_compile" flds = Some (PRef kc) -> Forall key_ok (map fst ord) ->
+  match Compile.compile_order_by (map T pts0) (krefs ord) with
+  | Compile.Err e =>
+      call_method call_ref prim compile_order_by flds [PList (map enc_oitem ord); PList (map enc_target pts0)] =
+      Exc (CompErr e)
+  | Compile.Ok (ts, spec) =>
+      exists new : list ptarget,
+        call_method call_ref prim compile_order_by flds [PList (map enc_oitem ord); PList (map enc_target pts0)] =
+        Ok (flds, PTuple [PList (map enc_target new); enc_ospec spec])
+        /\ map T new = skipn (length pts0) ts
+  end.
+Proof.
+  intros pts0 ord flds Hfld Hks.
+  unfold call_method.
+  change (f_params compile_order_by) with ["self"; "order_by"; "c_targets"].
+  change (f_gen compile_order_by) with false. rewrite order_body_split. cbn [bind_params].
+  destruct ord as [|kd rest] eqn:Eord.
+  { (* no ORDER BY *)
+    cbn [krefs map Compile.compile_order_by]. exists []. split.
+    - reflexivity.
+    - rewrite skipn_all2; [reflexivity|]. rewrite map_length. lia. }
+  rewrite <- Eord in *.
+  assert (Hne : map enc_oitem ord <> []) by (rewrite Eord; discriminate).
+  rewrite exec_block_app. rewrite (order_prefix_ok pts0 _ _ flds eq_refl Hne). cbn [bind].
+  rewrite exec_block_cons.
+  rewrite (exec_for call_ref prim "spec" (XName "order_by") order_body _ _ (map enc_oitem ord))
+    by (apply eval_name; reflexivity).
+  assert (I0 : oinv pts0 (order_env (PList (map enc_oitem ord)) (PList (map enc_target pts0)) pts0) pts0 [])
+    by (unfold oinv; repeat split; reflexivity).
+  pose proof (order_loop_src pts0 ord _ flds pts0 [] Hfld I0 Hks) as HL.
+  assert (EM : Compile.compile_order_by (map T pts0) (krefs ord) =
+               match p_order_loop pts0 ord pts0 [] with
+               | Compile.Ok (p, sp) => Compile.Ok (map T p, Some sp)
+               | Compile.Err e => Compile.Err e
+               end).
+  { unfold Compile.compile_order_by. destruct (krefs ord) as [|kr krs] eqn:Ek; [rewrite Eord in Ek; discriminate|].
+    rewrite <- Ek. rewrite visible_length, names_of_from, p_order_loop_T.
+    destruct (p_order_loop pts0 ord pts0 []) as [[p sp]|e]; reflexivity. }
+  rewrite EM.
+  destruct (p_order_loop pts0 ord pts0 []) as [[pts' spec']|e].
+  - destruct HL as (loc' & -> & (Hself & Hnew & Hexp & Hspec & Hnm & Hn & Hct)). cbn [bind].
+    exists (skipn (length pts0) pts'). split.
+    + unfold ob_ret. rewrite exec_block_cons. run. rewrite Hnew. run. rewrite Hct. run. rewrite Hspec. run.
+      rewrite map_length, slice_from, skipn_map. reflexivity.
+    + rewrite skipn_map. reflexivity.
+  - rewrite HL. reflexivity.
+Qed.
+
 End Tie.
+
+(* the statement for Properties/C05.v: the opaque callables are named through the generated [refs] table *)
+Theorem order_by_source :
+  forall (call_ref : nat -> list pv -> pv) (tbl : nat -> Compile.cnode) (kids : nat -> list nat)
+         (mro : string -> list string) (msg : string -> list pv -> pv)
+         (compf : pv -> Compile.result nat cerr) (kc kchk kagg : nat),
+  ref_of refs "beanquery.compiler.check_aggregates" = Some kchk ->
+  ref_of refs "beanquery.compiler.is_aggregate" = Some kagg ->
+  (forall a, call_ref kc [a] = enc_rid (compf a)) ->
+  (forall i, call_ref kchk [nref i] =
+             match Compile.check_aggregates (tbl i) with Some e => PV (VErr (CompErr e)) | None => PNone end) ->
+  (forall i, call_ref kagg [nref i] = PBool (Compile.has_agg (tbl i))) ->
+  forall (pts0 : list ptarget) (ord : list (akey * bool)) (flds : env),
+  lookup "_compile" flds = Some (PRef kc) -> Forall key_ok (map fst ord) ->
+  match Compile.compile_order_by (map (T tbl) pts0) (krefs tbl compf ord) with
+  | Compile.Err e =>
+      call_method call_ref (prim_compiler tbl kids mro msg) compile_order_by flds
+        [PList (map enc_oitem ord); PList (map enc_target pts0)] = Exc (CompErr e)
+  | Compile.Ok (ts, spec) =>
+      exists new : list ptarget,
+        call_method call_ref (prim_compiler tbl kids mro msg) compile_order_by flds
+          [PList (map enc_oitem ord); PList (map enc_target pts0)] =
+        Ok (flds, PTuple [PList (map enc_target new); enc_ospec spec])
+        /\ map (T tbl) new = skipn (length pts0) ts
+  end.
+Proof.
+  intros call_ref tbl kids mro msg compf kc kchk kagg H1 H2 Hc Hk Ha.
+  cbn in H1, H2. injection H1 as <-. injection H2 as <-.
+  apply (order_by_src call_ref tbl kids mro msg compf kc Hc Hk Ha).
+Qed.
+
+(* ================================================================ the aggregate walk *)
+From Verif Require Proofs.CompileProofs.
+
+Section Walk.
+Variable call_ref : nat -> list pv -> pv.
+Variable tbl : nat -> Compile.cnode.
+Variable kids : nat -> list nat.
+Variable mro : string -> list string.
+Variable msg : string -> list pv -> pv.
+Notation prim := (prim_compiler tbl kids mro msg).
+
+Ltac lk := repeat first [rewrite lookup_update_eq | rewrite lookup_update_neq by reflexivity].
+Ltac crun := repeat (progress (cbn [PyMini.exec_block PyMini.exec PyMini.eval bind read write locals fields lookup update
+                                    String.eqb Ascii.eqb Bool.eqb PNone pv_truthy truthy PBool negb fst snd do_call])).
+
+(* is_aggregate(node) = bool(aggregates) of get_columns_and_aggregates(node) = Compile.has_agg *)
+Theorem is_aggregate_src : forall (kg i : nat) (cs ags : list nat),
+  ref_of refs "beanquery.compiler.get_columns_and_aggregates" = Some kg ->
+  call_ref kg [nref i] = PTuple [PList (map nref cs); PList (map nref ags)] ->
+  map tbl ags = snd (Compile.cols_aggs (tbl i)) ->
+  call_function call_ref prim is_aggregate [nref i] = Ok (PBool (Compile.has_agg (tbl i))).
+Proof.
+  intros kg i cs ags Hk Hc Ha. cbn in Hk. injection Hk as <-.
+  unfold call_function, is_aggregate. cbn [f_params f_body f_gen bind_params].
+  crun. rewrite Hc. crun.
+  change (prim "builtins.bool" [PList (map nref ags)])
+    with (bind (pv_truthy (PList (map nref ags))) (fun b => Ok (A:=pv) (PBool b))).
+  rewrite (proj2 (CompileProofs.predicates_are_the_walk (tbl i))), <- Ha.
+  destruct ags; reflexivity.
+Qed.
+
+(* get_columns_and_aggregates(node): the two accumulators start empty and are what the recursive walk returns *)
+Theorem get_columns_and_aggregates_src : forall (kr i : nat) (c a : pv),
+  ref_of refs "beanquery.compiler._get_columns_and_aggregates" = Some kr ->
+  call_ref kr [nref i; PList []; PList []] = PTuple [c; a] ->
+  call_function call_ref prim get_columns_and_aggregates [nref i] = Ok (PTuple [c; a]).
+Proof.
+  intros kr i c a Hk Hc. cbn in Hk. injection Hk as <-.
+  unfold call_function, get_columns_and_aggregates. cbn [f_params f_body f_gen bind_params].
+  crun. rewrite Hc. crun. reflexivity.
+Qed.
+
+End Walk.
+
+(* ================================================================ Compiler._compile_pivot_by *)
+Definition enc_pcol (p : Compile.pcol) : pv :=
+  match p with Compile.PIdx z => PInt z | Compile.PName n => enc_column n end.
+Definition enc_gi (g : option (list nat)) : pv := popt (fun l => PList (map (fun j => PInt (Z.of_nat j)) l)) g.
+Definition enc_pivot_by (p1 p2 : Compile.pcol) : pv := record (zs PIVOTBY) [("columns", PList [enc_pcol p1; enc_pcol p2])].
+Definition pivot_body : list stmt :=
+  Eval cbv in match nth 4 (f_body compile_pivot_by) SPass with SFor _ _ b => b | _ => [] end.
+Definition pivot_prefix : list stmt := Eval cbv in firstn 4 (f_body compile_pivot_by).
+Definition pivot_suffix : list stmt := Eval cbv in skipn 5 (f_body compile_pivot_by).
+
+Section Pivot.
+Variable call_ref : nat -> list pv -> pv.
+Variable tbl : nat -> Compile.cnode.
+Variable kids : nat -> list nat.
+Variable mro : string -> list string.
+Variable msg : string -> list pv -> pv.
+Notation prim := (prim_compiler tbl kids mro msg).
+Notation eval := (PyMini.eval call_ref prim).
+Notation exec := (PyMini.exec call_ref prim).
+Notation exec_block := (PyMini.exec_block call_ref prim).
+Notation for_loop := (for_loop call_ref prim).
+Notation T := (T tbl).
+
+Ltac lk := repeat first [rewrite lookup_update_eq | rewrite lookup_update_neq by reflexivity].
+Ltac run := repeat (progress (cbn [PyMini.exec_block PyMini.exec PyMini.eval bind read write locals fields pv_truthy truthy
+                                   PBool PNone PInt compare1 pv_is_none negb andb orb is_null rank Pos.eqb Z.eqb
+                                   method_call String.eqb Ascii.eqb Bool.eqb binop1 binop_builtin fst snd existsb
+                                   ValueError as_bound]; lk)).
+
+Variable pts : list ptarget.
+Let NMA : pv := PTuple [PStr dict_tag; PList (name_items_all 0 pts)].
+Let bound : nat := length (filter is_named pts).
+Definition enc_idxs (l : list nat) : pv := PList (map (fun j => PInt (Z.of_nat j)) l).
+
+Variable G : pv.      (* group_indexes *)
+Definition pinv (loc : env) (idxs : list nat) : Prop :=
+  lookup "indexes" loc = Some (enc_idxs idxs) /\ lookup "names" loc = Some NMA
+  /\ lookup "n_targets" loc = Some (PInt (Z.of_nat bound)) /\ lookup "group_indexes" loc = Some G.
+
+Lemma names_all_get n dflt :
+  prim ("call:" ++ "get") [NMA; PStr n; dflt] =
+  Ok (match Compile.assoc_last n (Compile.names_of (map T pts)) with Some j => PInt (Z.of_nat j) | None => dflt end).
+Proof.
+  change (prim ("call:" ++ "get") [NMA; PStr n; dflt]) with (dict_get NMA (PStr n) dflt).
+  unfold dict_get, NMA, PStr at 1. rewrite zeqb_refl. rewrite (name_items_all_lookup tbl), names_of_from.
+  destruct (Compile.assoc_last n (names_from 0 (map T pts))); reflexivity.
+Qed.
+
+Lemma isinstance_int_int z : prim "isinstance:builtins.int" [PV (VInt z)] = Ok (PBool true).
+Proof. reflexivity. Qed.
+Notation colv n := (PTuple [PV (VStr (zs COLUMN)); PList [PTuple [PStr "name"; PStr n]]]).
+Lemma isinstance_int_col n : prim "isinstance:builtins.int" [colv n] = Ok (PBool false).
+Proof. reflexivity. Qed.
+Lemma isinstance_col_col n : prim "isinstance:beanquery.parser.ast.Column" [colv n] = Ok (PBool true).
+Proof. reflexivity. Qed.
+Lemma column_name' n : prim ("attr:" ++ "name") [colv n] = Ok (PStr n).
+Proof. reflexivity. Qed.
+Lemma prim_fstring' args : prim "fstring" args = Ok (msg "fstring" args).
+Proof. reflexivity. Qed.
+Lemma prim_raise' cls lead m : prim "raise" [PV (VStr cls); PV (VStr lead); m] = Exc (exc_code cls lead).
+Proof. reflexivity. Qed.
+Lemma prim_getitem l i : prim "getitem" [PList l; PV (VInt i)] = index_at l i.
+Proof. reflexivity. Qed.
+
+Lemma pivot_step : forall (p : Compile.pcol) loc flds idxs, pinv loc idxs ->
+  match Compile.resolve_pivot (map T pts) p with
+  | Compile.Err e =>
+      exec_block (write {| locals := loc; fields := flds |} (TName "column") (enc_pcol p)) pivot_body = Exc (CompErr e)
+  | Compile.Ok i =>
+      exists loc', exec_block (write {| locals := loc; fields := flds |} (TName "column") (enc_pcol p)) pivot_body =
+                   Ok (Next {| locals := loc'; fields := flds |}) /\ pinv loc' (idxs ++ [i])
+  end.
+Proof.
+  intros p loc flds idxs (Hi & Hn & Hb & Hg). unfold pivot_body, Compile.resolve_pivot.
+  destruct p as [z|n]; cbn [enc_pcol].
+  - rewrite (visible_length tbl). fold bound. unfold Compile.nat_index.
+    assert (Pre : forall rest,
+              exec_block (write {| locals := loc; fields := flds |} (TName "column") (PInt z))
+                [SIf (XPrim "isinstance:builtins.int" [XName "column"]) rest
+                   (match pivot_body with [SIf _ _ b] => b | _ => [] end)] =
+              bind (exec_block (write {| locals := loc; fields := flds |} (TName "column") (PInt z)) rest)
+                (fun o => match o with Next s1 => Ok (Next s1) | Ret _ _ => Ok o end)).
+    { intros rest. rewrite exec_block_cons.
+      erewrite exec_if; [|erewrite eval_prim1 by (apply eval_name; cbn [write locals]; apply lookup_update_eq);
+                          unfold PInt; rewrite isinstance_int_int; reflexivity|reflexivity].
+      cbn [truthy]. destruct (exec_block _ rest) as [[s1|s1 v]| |]; reflexivity. }
+    rewrite Pre. clear Pre.
+    destruct (Z.leb_spec 1 z), (Z.leb_spec z (Z.of_nat bound)); cbn [andb].
+    + eexists. split.
+      * run. rewrite Hb. run. rewrite !val_le_int.
+        destruct (Z.leb_spec 0 (z - 1)); [|lia]. destruct (Z.leb_spec (Z.of_nat bound) (z - 1)); [lia|].
+        run. rewrite Hi. run. reflexivity.
+      * unfold pinv. repeat split; lk; try assumption. unfold enc_idxs. rewrite map_app. cbn [map].
+        rewrite Z2Nat.id by lia. reflexivity.
+    + run. rewrite Hb. run. rewrite !val_le_int.
+      destruct (Z.leb_spec 0 (z - 1)); [|lia]. destruct (Z.leb_spec (Z.of_nat bound) (z - 1)); [|lia].
+      run. rewrite prim_fstring'. run. rewrite prim_raise'. reflexivity.
+    + run. rewrite Hb. run. rewrite !val_le_int.
+      destruct (Z.leb_spec 0 (z - 1)); [lia|].
+      run. rewrite prim_fstring'. run. rewrite prim_raise'. reflexivity.
+    + run. rewrite Hb. run. rewrite !val_le_int.
+      destruct (Z.leb_spec 0 (z - 1)); [lia|].
+      run. rewrite prim_fstring'. run. rewrite prim_raise'. reflexivity.
+  - unfold enc_column, record. cbn [map fst snd].
+    destruct (Compile.assoc_last n (Compile.names_of (map T pts))) as [j|] eqn:Ej.
+    + eexists. split.
+      * run. rewrite isinstance_int_col. run. rewrite isinstance_col_col. run. rewrite Hn. run. rewrite column_name'. run.
+        rewrite names_all_get, Ej. run. rewrite Hi. run. reflexivity.
+      * unfold pinv. repeat split; lk; try assumption. unfold enc_idxs. rewrite map_app. reflexivity.
+    + run. rewrite isinstance_int_col. run. rewrite isinstance_col_col. run. rewrite Hn. run. rewrite column_name'. run.
+      rewrite names_all_get, Ej. run. rewrite prim_fstring'. run. rewrite prim_raise'. reflexivity.
+Qed.
+
+Lemma pivot_body_split :
+  f_body compile_pivot_by = pivot_prefix ++ [SFor "column" (XAttr (XName "pivot_by") "columns") pivot_body] ++ pivot_suffix.
+Proof. reflexivity. Qed.
+
+Lemma exec_block_app' : forall a b s,
+  exec_block s (a ++ b) = bind (exec_block s a) (fun o => match o with Next s1 => exec_block s1 b | Ret _ _ => Ok o end).
+Proof.
+  induction a as [|c t IH]; intros b s; [reflexivity|].
+  cbn [app]. rewrite !exec_block_cons. destruct (exec s c) as [[s1|s1 v]| |]; cbn [bind]; auto.
+Qed.
+
+Ltac crun := repeat (progress (cbn [PyMini.exec_block PyMini.exec PyMini.eval bind read write locals fields lookup update
+                                    String.eqb Ascii.eqb Bool.eqb as_bound PNone pv_truthy truthy PBool negb fst snd])).
+
+Lemma mem_nat_enc i g :
+  existsb (pv_eqb (PV (VInt (Z.of_nat i)))) (map (fun j => PInt (Z.of_nat j)) g) = Compile.mem_nat i g.
+Proof.
+  unfold Compile.mem_nat. induction g as [|j t IH]; [reflexivity|]. cbn [map existsb]. rewrite IH. f_equal.
+  unfold PInt. cbn [pv_eqb is_null orb rank Z.eqb Pos.eqb]. rewrite val_eq_int.
+  destruct (Nat.eqb_spec i j) as [->|N]; [apply Z.eqb_refl|]. apply Z.eqb_neq. lia.
+Qed.
+
+End Pivot.
+
+Section PivotMain.
+Variable call_ref : nat -> list pv -> pv.
+Variable tbl : nat -> Compile.cnode.
+Variable kids : nat -> list nat.
+Variable mro : string -> list string.
+Variable msg : string -> list pv -> pv.
+Notation prim := (prim_compiler tbl kids mro msg).
+Notation eval := (PyMini.eval call_ref prim).
+Notation exec_block := (PyMini.exec_block call_ref prim).
+Notation T := (T tbl).
+
+Ltac lk := repeat first [rewrite lookup_update_eq | rewrite lookup_update_neq by reflexivity].
+Ltac run := repeat (progress (cbn [PyMini.exec_block PyMini.exec PyMini.eval bind read write locals fields pv_truthy truthy
+                                   PBool PNone PInt compare1 pv_is_none negb andb orb is_null rank Pos.eqb Z.eqb
+                                   method_call String.eqb Ascii.eqb Bool.eqb binop1 binop_builtin fst snd existsb
+                                   ValueError as_bound]; lk)).
+Ltac crun := repeat (progress (cbn [PyMini.exec_block PyMini.exec PyMini.eval bind read write locals fields lookup update
+                                    String.eqb Ascii.eqb Bool.eqb as_bound PNone pv_truthy truthy PBool negb fst snd])).
+
+Definition pivot_env (pb ct g : pv) (pts : list ptarget) : env :=
+  [("self", PSelf); ("pivot_by", pb); ("targets", ct); ("group_indexes", g); ("indexes", PList []);
+   ("names", PTuple [PStr dict_tag; PList (name_items_all 0 pts)]);
+   ("n_targets", PInt (Z.of_nat (length (filter is_named pts))))].
+
+Lemma pivot_prefix_ok : forall (pts : list ptarget) (p1 p2 : Compile.pcol) (g : pv) flds,
+  exec_block {| locals := [("self", PSelf); ("pivot_by", enc_pivot_by p1 p2); ("targets", PList (map enc_target pts));
+                           ("group_indexes", g)]; fields := flds |} pivot_prefix =
+  Ok (Next {| locals := pivot_env (enc_pivot_by p1 p2) (PList (map enc_target pts)) g pts; fields := flds |}).
+Proof.
+  intros pts p1 p2 g flds. unfold pivot_prefix.
+  set (ct := PList (map enc_target pts)). set (pb := enc_pivot_by p1 p2).
+  rewrite exec_block_cons.
+  erewrite exec_if; [|eapply (eval_compare_one call_ref tbl kids mro msg) with (r := false);
+                       [apply eval_name; reflexivity|reflexivity|reflexivity]
+                    |reflexivity].
+  cbn [truthy]. rewrite exec_block_nil. cbn [bind].
+  rewrite exec_block_cons. cbn [PyMini.exec PyMini.eval bind write locals fields update String.eqb Ascii.eqb Bool.eqb].
+  rewrite exec_block_cons.
+  erewrite exec_assign
+    by (erewrite eval_prim1;
+        [|erewrite eval_listcomp_gen;
+          [|erewrite eval_prim1 by (apply eval_name; reflexivity);
+            change (prim "builtins.enumerate" [ct]) with (Ok (A:=pv) (PList (enum_from (Z.of_nat 0) (map enc_target pts))));
+            reflexivity];
+          fold name_elt; rewrite (comp_names_all call_ref tbl kids mro msg _ pts 0); reflexivity];
+        reflexivity).
+  cbn [bind]. rewrite exec_block_cons.
+  erewrite exec_assign
+    by (erewrite eval_prim1;
+        [|erewrite eval_listcomp_gen by (apply eval_name; reflexivity);
+          rewrite (comp_count call_ref tbl kids mro msg); reflexivity];
+        change (prim "builtins.sum" [PList (map (fun _ => PInt 1) (filter is_named pts))])
+          with (match sum_ints (map (fun _ : ptarget => PInt 1) (filter is_named pts)) with
+                | Some z => Ok (A:=pv) (PInt z) | None => Stuck end);
+        rewrite sum_ones; reflexivity).
+  cbn [bind]. crun. reflexivity.
+Qed.
+
+Theorem pivot_by_src : forall (pts : list ptarget) (p1 p2 : Compile.pcol) (gi : option (list nat)) flds,
+  call_method call_ref prim compile_pivot_by flds [enc_pivot_by p1 p2; PList (map enc_target pts); enc_gi gi] =
+  match Compile.compile_pivot_by (map T pts) gi (Some (p1, p2)) with
+  | Compile.Err e => Exc (CompErr e)
+  | Compile.Ok (Some (i1, i2)) => Ok (flds, enc_idxs [i1; i2])
+  | Compile.Ok None => Ok (flds, PNone)
+  end.
+Proof.
+  intros pts p1 p2 gi flds. unfold call_method.
+  change (f_params compile_pivot_by) with ["self"; "pivot_by"; "targets"; "group_indexes"].
+  change (f_gen compile_pivot_by) with false. rewrite pivot_body_split. cbn [bind_params].
+  rewrite (exec_block_app' call_ref tbl kids mro msg). rewrite pivot_prefix_ok. cbn [bind].
+  rewrite (exec_block_app' call_ref tbl kids mro msg).
+  set (env4 := pivot_env (enc_pivot_by p1 p2) (PList (map enc_target pts)) (enc_gi gi) pts).
+  rewrite exec_block_cons.
+  rewrite (exec_for call_ref prim "column" _ pivot_body _ {| locals := env4; fields := flds |} [enc_pcol p1; enc_pcol p2])
+    by (erewrite eval_attr; [|apply eval_name; reflexivity|discriminate]; reflexivity).
+  assert (I0 : pinv pts (enc_gi gi) env4 []) by (unfold pinv, env4; repeat split; reflexivity).
+  cbn [PyMiniLemmas.for_loop Compile.compile_pivot_by].
+  pose proof (pivot_step call_ref tbl kids mro msg pts (enc_gi gi) p1 env4 flds [] I0) as H1.
+  destruct (Compile.resolve_pivot (map T pts) p1) as [i1|e1]; cbn [Compile.bind]; [|rewrite H1; reflexivity].
+  destruct H1 as (loc1 & -> & I1). cbn [bind app] in *.
+  pose proof (pivot_step call_ref tbl kids mro msg pts (enc_gi gi) p2 loc1 flds [i1] I1) as H2.
+  destruct (Compile.resolve_pivot (map T pts) p2) as [i2|e2]; cbn [Compile.bind]; [|rewrite H2; reflexivity].
+  destruct H2 as (loc2 & -> & (Hi & Hn & Hb & Hg)). cbn [bind app PyMini.exec_block] in *.
+  unfold pivot_suffix. unfold enc_idxs in Hi. cbn [map] in Hi.
+  assert (X0 : forall a b : pv, index_at [a; b] 0 = Ok a) by reflexivity.
+  assert (X1 : forall a b : pv, index_at [a; b] 1 = Ok b) by reflexivity.
+  run. rewrite Hi. run. rewrite (prim_getitem tbl kids mro msg), X0. run. rewrite Hi. run.
+  rewrite (prim_getitem tbl kids mro msg), X1. run. rewrite val_eq_int.
+  destruct (Nat.eqb_spec i1 i2) as [->|N].
+  - rewrite Z.eqb_refl. run. rewrite (prim_raise' tbl kids mro msg). reflexivity.
+  - destruct (Z.eqb_spec (Z.of_nat i1) (Z.of_nat i2)); [lia|]. run. rewrite Hg.
+    destruct gi as [g|]; cbn [enc_gi popt]; run.
+    + rewrite Hi. run. rewrite (prim_getitem tbl kids mro msg), X1.
+      run. rewrite Hg. run. rewrite mem_nat_enc.
+      destruct (Compile.mem_nat i2 g); run.
+      * rewrite Hi. reflexivity.
+      * rewrite (prim_raise' tbl kids mro msg). reflexivity.
+    + rewrite (prim_raise' tbl kids mro msg). reflexivity.
+Qed.
+
+End PivotMain.
